@@ -282,53 +282,61 @@ func checkSignVerify(r *Rng) {
 					return &dns.SRV{Hdr: h, Priority: 1, Weight: 2, Port: uint16(i + 1), Target: "SIP.Example.org."}
 				},
 			} {
-				rrset := []dns.RR{
-					mk(dns.RR_Header{Name: owner, Class: 1, Ttl: ttls[0]}, 0),
-					mk(dns.RR_Header{Name: owner, Class: 1, Ttl: ttls[1]}, 1),
-				}
-				snap := func() string {
-					var s []string
-					for _, rr := range rrset {
-						c := dns.Copy(rr)
-						c.Header().Rdlength = 0 // RDLENGTH bookkeeping is allowed to change
-						s = append(s, text(c))
-					}
-					kc := dns.Copy(key)
-					kc.Header().Rdlength = 0
-					return strings.Join(s, ";") + text(kc)
-				}
-				before := snap()
-				for _, signer := range []string{"example.org.", "eXample.ORG."} {
-					sig := &dns.RRSIG{KeyTag: key.KeyTag(), SignerName: signer, Algorithm: dns.ED25519, Inception: 1700000000, Expiration: 1800000000}
-					if err := sig.Sign(priv, rrset); err != nil {
-						continue
-					}
-					st["sign_verify_checked"]++
-					if snap() != before {
-						Viol("C16/readonly-mutates/Sign", "RRSIG.Sign changed the RRset or key", map[string]string{"before": before, "after": snap()})
-						before = snap()
-					}
-					// Verify: the RRset, the key AND the signature record itself stay as they were
-					sigSnap := func() string {
-						c := dns.Copy(sig)
-						c.Header().Rdlength = 0
-						return text(c)
-					}
-					if expandWildcard {
-						// the answer synthesised from the wildcard: same records under the expanded owner
-						for _, rr := range rrset {
-							rr.Header().Name = expanded
+				for _, shape := range [][]int{{0, 1}, {0, 0, 1}, {0, 1, 0}, {0}, {1, 1}, {0, 1, 1, 0}} {
+					// the RRset as the caller holds it: records may repeat (the same RDATA with another TTL, as after
+					// merging two answers), in any position
+					var rrset []dns.RR
+					for pos, i := range shape {
+						ttl := ttls[i]
+						if pos >= 2 {
+							ttl = ttls[i] / 5 // a repeated record with a SMALLER TTL than its first occurrence
 						}
-						sig.Hdr.Name = expanded // the RRSIG travels under the expanded owner as well
-						before = snap()
+						rrset = append(rrset, mk(dns.RR_Header{Name: owner, Class: 1, Ttl: ttl}, i))
 					}
-					sigBefore := sigSnap()
-					verr := sig.Verify(key, rrset)
-					if expandWildcard && verr != nil {
-						st["wildcard_expansion_not_verified"]++
+					snap := func() string {
+						var s []string
+						for _, rr := range rrset {
+							c := dns.Copy(rr)
+							c.Header().Rdlength = 0 // RDLENGTH bookkeeping is allowed to change
+							s = append(s, text(c))
+						}
+						kc := dns.Copy(key)
+						kc.Header().Rdlength = 0
+						return strings.Join(s, ";") + text(kc)
 					}
-					if snap() != before || sigSnap() != sigBefore {
-						Viol("C16/readonly-mutates/Verify", "RRSIG.Verify changed the RRset, the key or the signature record", map[string]string{"before": before + sigBefore, "after": snap() + sigSnap()})
+					before := snap()
+					for _, signer := range []string{"example.org.", "eXample.ORG."} {
+						sig := &dns.RRSIG{KeyTag: key.KeyTag(), SignerName: signer, Algorithm: dns.ED25519, Inception: 1700000000, Expiration: 1800000000}
+						if err := sig.Sign(priv, rrset); err != nil {
+							continue
+						}
+						st["sign_verify_checked"]++
+						if snap() != before {
+							Viol("C16/readonly-mutates/Sign", "RRSIG.Sign changed the RRset or key", map[string]string{"before": before, "after": snap()})
+							before = snap()
+						}
+						// Verify: the RRset, the key AND the signature record itself stay as they were
+						sigSnap := func() string {
+							c := dns.Copy(sig)
+							c.Header().Rdlength = 0
+							return text(c)
+						}
+						if expandWildcard {
+							// the answer synthesised from the wildcard: same records under the expanded owner
+							for _, rr := range rrset {
+								rr.Header().Name = expanded
+							}
+							sig.Hdr.Name = expanded // the RRSIG travels under the expanded owner as well
+							before = snap()
+						}
+						sigBefore := sigSnap()
+						verr := sig.Verify(key, rrset)
+						if expandWildcard && verr != nil {
+							st["wildcard_expansion_not_verified"]++
+						}
+						if snap() != before || sigSnap() != sigBefore {
+							Viol("C16/readonly-mutates/Verify", "RRSIG.Verify changed the RRset, the key or the signature record", map[string]string{"before": before + sigBefore, "after": snap() + sigSnap()})
+						}
 					}
 				}
 			}
